@@ -6,6 +6,8 @@
    reader transcribed from the format text; wf_written, plans_of, sem_of (SpecProofs.v): the invariants of
    the header graphs py7zr writes, their intended member list, and the semantic header they denote. *)
 From P7 Require Import Prelude PyPrims Number Header HeaderPrims Spec SpecProofs.
+From P7 Require PackInfoGen.
+From P7gen Require ArchiveinfoRecords.
 Open Scope Z_scope.
 
 (* a concrete non-trivial header graph of the kind py7zr builds: its model-writer output is accepted by the strict
@@ -153,3 +155,36 @@ Theorem C07_data_count_needed :
   exists bs sh, write_header false 32 q_data_count = Ok bs /\ s_header 1000 bs = Ok sh /\ s_valid sh = false.
 Proof. exact data_count_needed. Qed.
 Print Assumptions C07_data_count_needed.
+
+(* ---- third wave (stage 1): the header record writers as translated on this run (coq/gen/ArchiveinfoRecords.v, regenerated
+   from py7zr/archiveinfo.py) are the writer of Header.v that writer_conforms is about: for EVERY object, the bytes
+   PackInfo.write emits (or its failing) are write_packinfo's.  A generated writer returns (object after the call, bytes). ---- *)
+Theorem C07_gen_PackInfo_write_is_write_packinfo : forall self : ArchiveinfoRecords.PackInfo,
+  (do (o, out) <- ArchiveinfoRecords.PackInfo_write self; Ok out)
+  = write_packinfo (ArchiveinfoRecords.PackInfo_enable_digests self) (PackInfoGen.pack_of self).
+Proof. exact PackInfoGen.gen_PackInfo_write_eq_model. Qed.
+Print Assumptions C07_gen_PackInfo_write_is_write_packinfo.
+
+(* hence the section theorem, over the generated writer: what it emits is read back by the strict specification reader *)
+Theorem C07_gen_packinfo_strict : forall lim nf (self o : ArchiveinfoRecords.PackInfo) bs,
+  wfw_pack nf (PackInfoGen.pack_of self) = true -> nf <= lim -> ArchiveinfoRecords.PackInfo_write self = Ok (o, bs) ->
+  exists body, bs = 6 :: body /\
+    forall r, s_packinfo lim (body ++ r) =
+      Ok ((p_pos (PackInfoGen.pack_of self), p_sizes (PackInfoGen.pack_of self),
+           sem_packcrcs (ArchiveinfoRecords.PackInfo_enable_digests self) (PackInfoGen.pack_of self)), r).
+Proof.
+  intros lim nf self o bs Hwf Hnf Hw.
+  pose proof (PackInfoGen.gen_PackInfo_write_eq_model self) as He. rewrite Hw in He. cbn [bind] in He.
+  exact (s_packinfo_wr lim _ nf _ bs Hwf Hnf (eq_sym He)).
+Qed.
+Print Assumptions C07_gen_packinfo_strict.
+
+(* the object after write(): only enable_digests changes *)
+Theorem C07_gen_PackInfo_write_state : forall (self o : ArchiveinfoRecords.PackInfo) out,
+  ArchiveinfoRecords.PackInfo_write self = Ok (o, out) ->
+  o = ArchiveinfoRecords.mkPackInfo (ArchiveinfoRecords.PackInfo_packpos self) (ArchiveinfoRecords.PackInfo_numstreams self)
+        (ArchiveinfoRecords.PackInfo_packsizes self) (ArchiveinfoRecords.PackInfo_packpositions self)
+        (ArchiveinfoRecords.PackInfo_crcs self) (ArchiveinfoRecords.PackInfo_digestdefined self)
+        (ArchiveinfoRecords.PackInfo_enable_digests self || any_true (ArchiveinfoRecords.PackInfo_digestdefined self)).
+Proof. exact PackInfoGen.gen_PackInfo_write_state. Qed.
+Print Assumptions C07_gen_PackInfo_write_state.
